@@ -1085,13 +1085,17 @@ func (c *FnVC) applySplits() {
 		if (len(c.ct.Ensures) > 0 && !inList(c.ct.Claims, "ensures")) || !c.ct.ModAll {
 			c.errorf("%s: a partially claimed function (claims ...) may not promise its callers anything it does not prove: ensures only if the class ensures is claimed, modifies all", c.fnName())
 		}
+		// obligations whose statement is ASSUMED further down the path (callee preconditions,
+		// loop invariants, at-call assertions) can never be left out: everything claimed
+		// after them would rest on an unproved assumption
+		claims := append([]string{"pre", "inv", "at"}, c.ct.Claims...)
 		var keep []*Obligation
 		for _, o := range c.obls {
-			if o.Class == "vacuity" || inList(c.ct.Claims, o.Class) {
+			if o.Class == "vacuity" || inList(claims, o.Class) {
 				keep = append(keep, o)
 			}
 		}
-		c.havocs = append(c.havocs, fmt.Sprintf("PARTIAL CLAIM: only obligations of class %v are generated for this function (%d of %d); its other obligations are not discharged and not claimed", c.ct.Claims, len(keep), len(c.obls)))
+		c.havocs = append(c.havocs, fmt.Sprintf("PARTIAL CLAIM: only obligations of the classes %v (plus pre, inv, at, which are always kept because they are assumed further down the path) are generated for this function (%d of %d); its other obligations are not discharged and not claimed", c.ct.Claims, len(keep), len(c.obls)))
 		c.obls = keep
 	}
 	if len(c.splitNames) == 0 {
